@@ -569,21 +569,10 @@ func (vm *VM) nextCall() bool {
 			vm.calls[i] = current
 			i++
 		case returned, recovered:
-			// A deferred call is returned. If there is another deferred
+			// A deferred call is returned. If it has recovered the panic,
+			// the panic is no longer active. If there is another deferred
 			// call, it will be executed, otherwise the previous call will be
 			// finalized.
-			if i > 0 {
-				prev := vm.calls[i-1]
-				if prev.status == deferred {
-					vm.swapStack(&prev.fp, &call.fp, call.cl.fn.NumReg)
-					call, vm.calls[i-1] = prev, call
-					break
-				}
-			}
-			if regs := call.cl.fn.FinalRegs; regs != nil {
-				vm.fp = call.fp
-				vm.finalize(regs)
-			}
 			if call.status == recovered {
 				numPanicked := 0
 				for _, c := range vm.calls {
@@ -599,6 +588,19 @@ func (vm *VM) nextCall() bool {
 					p = p.next
 					vm.panic = p
 				}
+				call.status = returned
+			}
+			if i > 0 {
+				prev := vm.calls[i-1]
+				if prev.status == deferred {
+					vm.swapStack(&prev.fp, &call.fp, call.cl.fn.NumReg)
+					call, vm.calls[i-1] = prev, call
+					break
+				}
+			}
+			if regs := call.cl.fn.FinalRegs; regs != nil {
+				vm.fp = call.fp
+				vm.finalize(regs)
 			}
 			continue
 		case panicked:
